@@ -50,7 +50,15 @@
 //	                       SYNC_COMMITTEE_SIZE 12/20/24), sweep 7/11/13/311, waiting times pairwise different,
 //	                       MIN_ATTESTATION_INCLUSION_DELAY untouched, SLOTS_PER_EPOCH 8 or 6, strictly increasing
 //	                       fork schedule through all five forks
+//	                       round 3 (applyApart3): for part of the seeds SLOTS_PER_HISTORICAL_ROOT is NOT a multiple of
+//	                       SLOTS_PER_EPOCH (15/8, 11/6: period 1; 20/8, 14/6: period 2 with forks 2,4,6,8; 20/6: period 3
+//	                       with forks 3,6,9,12), MAX_EFFECTIVE_BALANCE 16 or 64 ETH with many new deposits above the cap,
+//	                       MAX_BLOBS_PER_BLOCK 7/9/12 with blocks carrying that many; always: eth1 voting period not a
+//	                       divisor of SLOTS_PER_HISTORICAL_ROOT, slashings vector != historical vector, every electra
+//	                       constant different from the earlier constant of the same unit
+//	apart0:<seed>          apart:<seed> as it was before round 3
 //	rand2:<seed>           rand:<seed> with each "apart" ingredient applied with probability 1/2
+//	rand3:<seed>           rand2:<seed> with each round-3 ingredient applied with probability 1/2
 //	mainnetconst@a,b,c,d   the published mainnet preset+config with SLOTS_PER_EPOCH 8
 //	fast2@a,b,c,d          fast@ with a 4-epoch eth1 voting period and MAX_DEPOSITS 3 (for policy "showcase")
 //
